@@ -72,4 +72,16 @@ let () =
           if not (matches_plain (escape_std t) ivs) then "fail:url-match-empty-or-with-line-break"
           else if text_spec t o then "ok" else "fail:text-not-fully-escaped" in
         Mlutil.print_model ["S" ^ field_of_str m] verdict
+    | "msg", [_; _], [out; same; ptext; ivs; rep] ->
+        let t = str_of_field ptext in
+        let ivs = List.map iv_of (split ',' ivs) in
+        let m = text_to_html t ivs in
+        let o = str_of_field (String.sub out 1 (String.length out - 1)) in
+        let verdict =
+          if same <> "1" then "fail:ui-html-member-is-not-the-sanitised-body"
+          else if not (matches_plain (escape_std t) ivs) then "fail:url-match-empty-or-with-line-break"
+          else if not (text_spec t o) then "fail:text-not-fully-escaped"
+          else html_verdict rep in
+        Mlutil.print_model ["S" ^ field_of_str m] verdict
+    | "msg", _, ["UNPARSABLE"] -> Mlutil.print_model ["UNPARSABLE"] "ok"
     | _ -> Mlutil.print_model ["UNKNOWN-KIND"] "fail:unparsable-case")
